@@ -10,6 +10,8 @@
 (*   E  (thorough) options Compress/IndexNames/GenerateIndexPages x read via Read / WriteTo x route fs/fsrw/file     *)
 (*   V  FS.PathRewrite = NewVHostPathRewriter(0): Host header values ("..", ".", "a", ...) x targets x index options; *)
 (*      the parent of the root holds an index.html (file OUTIDX) and the sentinel                                    *)
+(*   G  If-Modified-Since before / equal / after the files' mtime, malformed x Range x GET/HEAD, then a plain GET      *)
+(*   W  body stream drained with io.Copy into a writer without ReadFrom (the readers' WriteTo loops), whole and ranged  *)
 (*   F  Accept-Encoding: gzip on/off x Compress on/off x Range, mixed on one handler (plain and compressed cache)     *)
 EXTENDS FileServe, Json, IOUtils, SequencesExt
 
@@ -22,9 +24,11 @@ M == {"GET", "HEAD"}
 Thorough == Tier = "thorough"
 
 \* many = number of (empty) files in directory m/: its generated index page is about 16 KiB (> MaxSmallFileSize)
-TreeRec == [lens |-> SetToSortSeq(Lens \cup BigLens, <), idxlen |-> 3, outlen |-> 5, alen |-> 2, pidxlen |-> 4, many |-> 120]
+TreeRec == [lens |-> SetToSortSeq(Lens \cup BigLens, <), idxlen |-> 3, outlen |-> 5, alen |-> 2, pidxlen |-> 4, many |-> 120, mtime |-> MTime]
 
-RqH(path, tgt, m, r, ae, host) == [path |-> path, tgt |-> tgt, method |-> m, range |-> r, ae |-> ae, host |-> host]
+RqI(path, tgt, m, r, ae, host, ims) == [path |-> path, tgt |-> tgt, method |-> m, range |-> r, ae |-> ae, host |-> host,
+                                       ims |-> ims, imsstr |-> ImsStr(ims)]
+RqH(path, tgt, m, r, ae, host) == RqI(path, tgt, m, r, ae, host, "")
 RqE(path, tgt, m, r, ae) == RqH(path, tgt, m, r, ae, "h")
 Rq(path, tgt, m, r) == RqE(path, tgt, m, r, FALSE)
 FileRq(n, m, r) == Rq("/" \o FName(n), FName(n), m, r)
@@ -50,7 +54,7 @@ SeqMethods == {<<"GET", "GET", "GET">>, <<"HEAD", "GET", "GET">>, <<"GET", "HEAD
 FamB == IF Thorough
         THEN { Cs(Opt("fs", TRUE, FALSE, FALSE, FALSE, via), <<FileRq(n, ms[1], r1), FileRq(n, ms[2], r2), FileRq(n, ms[3], r3)>>) :
                  n \in SeqLens, r1 \in SeqRanges, r2 \in SeqRanges, r3 \in {NoRange, Rg("ab", Num(1), Num(2), "bytes=1-2")},
-                 ms \in SeqMethods, via \in {"read", "writeto"} }
+                 ms \in SeqMethods, via \in {"read", "writeto", "iocopy"} }
         ELSE { Cs(Plain(TRUE), <<FileRq(n, ms[1], r1), FileRq(n, ms[2], r2)>>) :
                  n \in SeqLens, r1 \in SeqRanges, r2 \in SeqRanges, ms \in SeqMethods }
 
@@ -58,7 +62,7 @@ FamB == IF Thorough
 BigToks == {Num(n) : n \in BigNumSet} \cup BigNums
 BigRanges == RangesAB(BigToks) \cup RangesA(BigToks) \cup RangesS(BigToks) \cup {NoRange}
 FamC == { Cs(Opt("fs", TRUE, FALSE, FALSE, FALSE, via), <<FileRq(n, "GET", r), FileRq(n, "HEAD", r), FileRq(n, "GET", r)>>) :
-            n \in BigLens, r \in BigRanges, via \in (IF Thorough THEN {"read", "writeto"} ELSE {"read"}) }
+            n \in BigLens, r \in BigRanges, via \in (IF Thorough THEN {"read", "writeto", "iocopy"} ELSE {"read"}) }
 
 \* ---- D: paths
 FewRanges == {NoRange, Rg("ab", Num(0), Num(0), "bytes=0-0"), Rg("-n", NoNum, Num(1), "bytes=-1")}
@@ -99,7 +103,7 @@ FamE == IF ~Thorough THEN
               n \in {0, 3} \cup BigLens, r \in RangesAB(NumToks({0, 1, 2})) \cup RangesS(NumToks({0, 1})) \cup {NoRange} }
         ELSE
           { Cs(Opt(rt, ab, co, ix, ge, via), <<FileRq(n, "GET", r), FileRq(n, "HEAD", r), FileRq(n, "GET", r)>>) :
-              rt \in {"fs", "fsrw"}, ab \in BOOLEAN, co \in BOOLEAN, ix \in BOOLEAN, ge \in BOOLEAN, via \in {"read", "writeto"},
+              rt \in {"fs", "fsrw"}, ab \in BOOLEAN, co \in BOOLEAN, ix \in BOOLEAN, ge \in BOOLEAN, via \in {"read", "writeto", "iocopy"},
               n \in OptLens, r \in AllRanges(OptToks) }
           \cup { Cs(Opt("file", TRUE, TRUE, FALSE, TRUE, via), <<FileRq(n, m, r), FileRq(n, "GET", r)>>) :
               n \in Lens \cup BigLens, r \in AllRanges(NumToks({0, 1, 2, 3, 4, 5})), m \in M, via \in {"read", "writeto"} }
@@ -117,10 +121,27 @@ FamFn(n) == IF Thorough
 FamF == UNION { FamFn(n) : n \in GzLens }
         \cup { Cs(Opt("fs", TRUE, TRUE, FALSE, TRUE, "read"), <<RqE(p, "dir", "GET", NoRange, TRUE), RqE(p, "dir", "GET", NoRange, FALSE)>>) : p \in DirPaths }
 
-All == SetToSeq(FamA \cup FamB \cup FamC \cup FamD \cup FamE \cup FamF \cup FamV)
+\* ---- G: conditional requests
+ImsLens == IF Thorough THEN Lens \cup BigLens ELSE {0, 1, 3, 8193}
+ImsRq(n, m, r, ims) == RqI("/" \o FName(n), FName(n), m, r, FALSE, "h", ims)
+FamG == { Cs(o, <<ImsRq(n, "GET", r, ims), ImsRq(n, "HEAD", r, ims), ImsRq(n, "GET", r, "")>>) :
+            o \in {Plain(TRUE), Opt("file", TRUE, TRUE, FALSE, TRUE, "read")} \cup (IF Thorough THEN {Plain(FALSE), Opt("fsrw", TRUE, TRUE, TRUE, TRUE, "iocopy")} ELSE {}),
+            n \in ImsLens, r \in FewRanges, ims \in ImsKinds \ {""} }
+        \cup { Cs(Opt("fs", TRUE, FALSE, ix, ge, "read"), <<RqI(p, "dir", m, NoRange, FALSE, "h", ims), RqI(p, "dir", "GET", NoRange, FALSE, "h", "")>>) :
+            ix \in BOOLEAN, ge \in BOOLEAN, p \in {"/", "/d", "/m"}, m \in M, ims \in {"before", "after"} }
+
+\* ---- W: the WriteTo loops of the readers (io.Copy into a plain writer)
+WToks == NumToks(IF Thorough THEN {0, 1, 2, 3, 4, 5} ELSE {0, 1, 2, 3})
+FamW == { Cs(Opt(rt, TRUE, FALSE, FALSE, FALSE, "iocopy"), <<FileRq(n, "GET", r), FileRq(n, "GET", r)>>) :
+            rt \in (IF Thorough THEN {"fs", "file"} ELSE {"fs"}), n \in Lens \cup BigLens,
+            r \in RangesAB(WToks) \cup RangesA(WToks) \cup RangesS(WToks) \cup {NoRange, EmptyRange} }
+        \cup { Cs(Opt("fs", TRUE, FALSE, ix, ge, "iocopy"), <<Rq(p, "dir", "GET", r), Rq(p, "dir", "GET", r)>>) :
+            ix \in BOOLEAN, ge \in BOOLEAN, p \in {"/", "/d", "/m"}, r \in FewRanges }
+
+All == SetToSeq(FamA \cup FamB \cup FamC \cup FamD \cup FamE \cup FamF \cup FamV \cup FamG \cup FamW)
 
 ASSUME RangeSemSane(Toks \cup BigToks, Lens \cup BigLens)
-ASSUME PrintT(<<"@@FAMILIES", Cardinality(FamA), Cardinality(FamB), Cardinality(FamC), Cardinality(FamD), Cardinality(FamE), Cardinality(FamF), Cardinality(FamV)>>)
+ASSUME PrintT(<<"@@FAMILIES", Cardinality(FamA), Cardinality(FamB), Cardinality(FamC), Cardinality(FamD), Cardinality(FamE), Cardinality(FamF), Cardinality(FamV), Cardinality(FamG), Cardinality(FamW)>>)
 ASSUME ndJsonSerialize(IOEnv.VERIF_OUT,
          [i \in 1 .. Len(All) |-> [id |-> i, route |-> All[i].route, abr |-> All[i].abr, compress |-> All[i].compress,
                                    idx |-> All[i].idx, gen |-> All[i].gen, via |-> All[i].via, tree |-> TreeRec,
